@@ -4,9 +4,10 @@
    and "scrubbing removes exactly the registered helpers", plus the pieces proved under C09/C11/C12/C13. The
    end-to-end claim is decided by the check on the real gateway against a single-server reference evaluator. *)
 From Coq Require Import List String Ascii Bool Arith.
-From Pebbles Require Import Base.Json Base.Str Exec.Scrub Exec.ScrubProofs Exec.PointData.
+From Pebbles Require Import Base.Json Base.Str Exec.Scrub Exec.ScrubProofs Exec.PointData Exec.Points Exec.PointsProofs.
 Import ListNotations.
 Open Scope string_scope.
+Open Scope list_scope.
 
 (* Insertion points: whatever characters the entity id contains, the point written for a list entry / an object /
    an intermediate list step is read back as exactly (response key, index, id) *)
@@ -43,6 +44,27 @@ Theorem registered_helper_can_leak :
                    existsb (fun e => existsb (String.eqb "__typename") (snd e)) fields = true.
 Proof. exact helper_under_other_type_leaks. Qed.
 
+(* ---- which places the dependent steps are run for (executor.FindInsertionPoints / FindSelection) ---- *)
+(* whenever the result conforms to the selection along the path (no null on the way, lists of objects, an id on the
+   objects at its end), every place is found: the places below a list are, in order, the places below each of its
+   entries — none skipped, none twice, no error *)
+Theorem every_place_of_a_conforming_result_is_found : forall rest ss chunk branch,
+  Conf rest ss chunk -> points_go rest ss chunk branch = POk (paths rest ss chunk branch).
+Proof. exact every_place_is_found. Qed.
+Theorem places_extend_the_starting_point : forall rest ss chunk branch p, In p (paths rest ss chunk branch) ->
+  List.length p = List.length branch + List.length rest /\ firstn (List.length branch) p = branch.
+Proof. exact paths_extend. Qed.
+(* the selection of a path element is the field of the current level (after fix 61dcc21; the pinned depth-first search
+   returned a same-named field nested in an earlier sibling: depth_first_was_shadowed) *)
+Theorem the_selection_of_this_level_wins : forall p ss c,
+  find (fun c => fkey c =? p) ss = Some c -> find_selection p ss = Some c.
+Proof. exact level_first. Qed.
+(* listed finding C01-union-member-without-fields at this layer *)
+Theorem one_entry_without_id_hides_the_other_places :
+  find_points ["beings"] beings_sel beings_result [] = POk [] /\
+  paths ["beings"] beings_sel beings_result [] = [["beings:0#"]; ["beings:1#p1"]].
+Proof. exact one_entry_without_id_hides_the_others. Qed.
+
 Print Assumptions insertion_point_round_trip_list.
 Print Assumptions insertion_point_round_trip_object.
 Print Assumptions insertion_point_round_trip_step.
@@ -50,3 +72,7 @@ Print Assumptions pinned_tree_lost_ids_with_hash.
 Print Assumptions scrub_removes_exactly_the_helpers.
 Print Assumptions scrub_leaves_other_members.
 Print Assumptions registered_helper_can_leak.
+Print Assumptions every_place_of_a_conforming_result_is_found.
+Print Assumptions places_extend_the_starting_point.
+Print Assumptions the_selection_of_this_level_wins.
+Print Assumptions one_entry_without_id_hides_the_other_places.
